@@ -685,6 +685,7 @@ func (r *Runner) Quiesce() (int, bool, error) {
 	r.injN, r.ownerInjN, r.syncInjN = 0, 0, 0
 	for round := 1; round <= r.MaxQuiesceRounds; round++ {
 		before := r.W.Store.RV()
+		roundStart := len(r.W.Store.Trace)
 		r.SyncCaches()
 		for _, cn := range AllControllers {
 			if !r.W.HasController(cn) {
@@ -698,7 +699,14 @@ func (r *Runner) Quiesce() (int, bool, error) {
 		}
 		r.GC()
 		r.Kubelet()
-		if r.W.Store.RV() == before {
+		injected := false
+		for _, c := range r.W.Store.Trace[roundStart:] {
+			if c.Injected {
+				injected = true
+			}
+		}
+		// a round disturbed by an injected fault says nothing about quiescence
+		if r.W.Store.RV() == before && !injected {
 			return round, true, nil
 		}
 	}
